@@ -27,6 +27,8 @@ def run(F, X, rep):
     import rules_hh as H
     if H.need_hh(C, rep, "C11-T7"):
         H.l2_no_shared_blocking_state(C, rep, "C11-T7")
+        # and the timer arm's answer needs the table lock: nothing may block while another task holds it
+        H.p6_no_blocking_under_lock(C, rep, "C11-T8")
     # T5: the configured value reaches params.mpp_timeout (and is not crossed with the payment timeout)
     import p_c19
     mb = p_c19.main_body(F)
